@@ -282,6 +282,12 @@ func (g *GhostDB) dbBuiltin(env *SpecEnv, st *State, name string, args []TV) (TV
 		return TV{VScalar{pv.Nil}, boolT}, true
 	case "now":
 		return TV{VScalar{g.now}, types.Typ[types.Int64]}, true
+	case "now0":
+		// the clock value the coroutine observed first (at entry)
+		if g.now0.S != "" {
+			return TV{VScalar{g.now0}, types.Typ[types.Int64]}, true
+		}
+		return TV{VScalar{g.now}, types.Typ[types.Int64]}, true
 	}
 	return TV{}, false
 }
